@@ -217,4 +217,18 @@ theorem C18_wiring :
 theorem C18_skeleton_makeCookie : Sso.Generated.skel_store_makeCookie =
     ["call:SplitHostPort", "if{", "}", "if{", "call:HasSuffix", "if{", "}", "}", "call:Add", "return"] := by decide
 
+/-- Tie (T1), second wave: helpers, stores and second callers on this property's path (store_SaveSession, store_setSessionCookie, store_makeSessionCookie, store_makeCSRFCookie, proxy_newTimeoutHandler) — call/branch/store skeletons
+regenerated from the source on every run against the expectations frozen here. -/
+theorem C18_wiring2 :
+    Sso.Generated.skel_store_SaveSession =
+      ["call:MarshalSession", "if{", "return", "}", "call:setSessionCookie", "return"] ∧
+    Sso.Generated.skel_store_setSessionCookie =
+      ["call:Now", "call:makeSessionCookie", "call:SetCookie"] ∧
+    Sso.Generated.skel_store_makeSessionCookie =
+      ["call:makeCookie", "return"] ∧
+    Sso.Generated.skel_store_makeCSRFCookie =
+      ["call:makeCookie", "return"] ∧
+    Sso.Generated.skel_proxy_newTimeoutHandler =
+      ["call:Sprintf", "call:TimeoutHandler", "return"] := by decide
+
 end Sso.Harden
